@@ -51,6 +51,15 @@ func main() {
 		os.Exit(checkCmd(os.Args[2:]))
 	case "replay":
 		os.Exit(replayCmd(os.Args[2:]))
+	case "search": // verif search <repo> <pkgdir>: run the decoder witness search (debugging aid)
+		u, st, err := setup(os.Args[2])
+		_ = u
+		if err != nil {
+			fmt.Println(err)
+			os.Exit(2)
+		}
+		rep, hit := decodeWitnessSearch(st, os.Args[2], os.Args[3])
+		fmt.Println(rep, hit)
 	default:
 		fmt.Fprintln(os.Stderr, "unknown command", os.Args[1])
 		os.Exit(2)
